@@ -402,6 +402,36 @@ let run_blocks line =
     | None -> "-" in
   d ^ " " ^ f
 
+(* ---------- C15 tree surgery: "<hex source or -> ; op ; op ..." -> "<done> <ok> <n> type:start:len:next:prev:child:tail:mate ..." *)
+let run_surgery line =
+  match List.map String.trim (String.split_on_char ';' line) with
+  | [] -> "?"
+  | src :: ops ->
+    let src = bytes_of_hex (String.trim src) in
+    let nd = n_of_dec in
+    let parse o = match split_on ' ' o with
+      | ["N"; a; b; c] -> ONew (nd a, nd b, nd c)
+      | ["C"; a] -> OCopy (nd a)
+      | ["P"; a; b] -> OParent (nd a, nd b)
+      | ["A"; a; b] -> OChainAppend (nd a, nd b)
+      | ["H"; a; b] -> OAppendChild (nd a, nd b)
+      | ["RF"; a] -> ORemoveFirst (nd a)
+      | ["RL"; a] -> ORemoveLast (nd a)
+      | ["RT"; a] -> ORemoveTail (nd a)
+      | ["FT"; a] -> OFixTail (nd a)
+      | ["PL"; a] -> OPop (nd a)
+      | ["PR"; a; b] -> OPrune (nd a, nd b)
+      | ["PG"; a; b; c] -> OGraft (nd a, nd b, nd c)
+      | ["SP"; a; b; c; d] -> OSplit (nd a, nd b, nd c, nd d)
+      | ["SC"; a; c] -> OSplitChar (nd a, nd c)
+      | ["M"; a; b] -> OMate (nd a, nd b)
+      | _ -> failwith ("bad op " ^ o) in
+    let ops = List.map parse (List.filter (fun o -> o <> "") ops) in
+    let ((h, dn), ok) = th_run src [] ops N0 in
+    let d = dec_of_n in
+    Printf.sprintf "%s %s %d" (d dn) (if ok then "ok" else "UB") (List.length h) ^
+    String.concat "" (List.map (fun t -> Printf.sprintf " %s:%s:%s:%s:%s:%s:%s:%s" (d t.kty) (d t.kst) (d t.kln) (d t.knx) (d t.kpv) (d t.kch) (d t.ktl) (d t.kmt)) h)
+
 let () =
   let model = Sys.argv.(1) in
   let f = match model with
@@ -420,6 +450,7 @@ let () =
     | "talign" -> run_talign
     | "spec" -> run_spec
     | "blocks" -> run_blocks
+    | "surgery" -> run_surgery
     | _ -> failwith "unknown model" in
   try while true do
     let line = input_line stdin in
